@@ -13,6 +13,7 @@ at the end of each tick; `defer_tick_lazy` for `defer_tick` and tick cycles).  T
 -/
 import HvHydro.Model.Tick
 import HvHydro.Lemmas.Ops
+import HvHydro.Lemmas.Order
 
 namespace HvHydro
 open List
@@ -132,14 +133,13 @@ theorem tick_op_eq_list_op_enumerate :
       = ((evalAt next fuel t hist).zipIdx 0).map (fun p => Val.pair (.int p.2) p.1) := by
   simp [evalAt, aux_enum]
 
-/-- `sort()` returns a permutation of the batch, namely its merge sort under the element order
-    (sortedness itself rests on core's `mergeSort`; see the note in checks/C30.py) -/
-theorem tick_op_eq_list_op_sort_partial :
+/-- `sort()` returns the batch sorted: a permutation of it that is pairwise ordered by the element order
+    (`Ord` of `i64` / tuples, a total order) -/
+theorem tick_op_eq_list_op_sort :
     (evalAt next fuel (.sort t) hist).Perm (evalAt next fuel t hist) ∧
-    evalAt next fuel (.sort t) hist = (evalAt next fuel t hist).mergeSort Val.le := by
-  refine ⟨?_, by simp only [evalAt]⟩
+    (evalAt next fuel (.sort t) hist).Pairwise (fun a b => Val.le a b = true) := by
   simp only [evalAt]
-  exact List.mergeSort_perm _ _
+  exact ⟨List.mergeSort_perm _ _, aux_sort_sorted _⟩
 
 /-- `unique()`: duplicate-free, same elements, first occurrences kept in order -/
 theorem tick_op_eq_list_op_unique :
